@@ -731,9 +731,8 @@ pub fn untouched_diff(before: &v1::Instance, after: &v1::Instance, variables_too
         if before.parameters != after.parameters {
             out.push("parameters");
         }
-        if before.constraint_hints != after.constraint_hints {
-            out.push("constraint_hints");
-        }
+        // constraint hints are deliberately not part of this: whether a successful relax may drop a hint that
+        // names the relaxed constraint is a design decision the statements do not settle
         if before.sense != after.sense {
             out.push("sense");
         }
